@@ -299,7 +299,16 @@ func (s *symFn) val1(v ssa.Value) *Sym {
 			return s.loadAt(x.X, x.Type(), x)
 		}
 	case *ssa.BinOp:
-		return sBin(x.Op.String(), s.val(x.X), s.val(x.Y))
+		a, b := s.val(x.X), s.val(x.Y)
+		if x.Op == token.EQL || x.Op == token.NEQ {
+			if _, isIface := x.X.Type().Underlying().(*types.Interface); isIface {
+				// an interface holding a (possibly nil) pointer is never the nil interface
+				if (isNilSym(b) && a.Boxed) || (isNilSym(a) && b.Boxed) {
+					return sBool(x.Op == token.NEQ)
+				}
+			}
+		}
+		return sBin(x.Op.String(), a, b)
 	case *ssa.Field:
 		n, emb := fieldOf(x.X.Type(), x.Field)
 		return sField(s.val(x.X), n, emb, x.Type())
@@ -363,7 +372,13 @@ func (s *symFn) val1(v ssa.Value) *Sym {
 	case *ssa.Phi:
 		return s.phi(x)
 	case *ssa.MakeInterface:
-		return s.val(x.X)
+		in := s.val(x.X)
+		if _, isPtr := x.X.Type().Underlying().(*types.Pointer); isPtr && in != nil && !in.Boxed {
+			n := *in
+			n.Boxed = true
+			return &n
+		}
+		return in
 	case *ssa.ChangeType:
 		return s.val(x.X)
 	case *ssa.ChangeInterface:
@@ -604,7 +619,9 @@ func (s *symFn) globalAt(g *ssa.Global, t types.Type, at ssa.Instruction) *Sym {
 						for _, in := range lb.Instrs {
 							if st, ok := in.(*ssa.Store); ok {
 								if gg, _ := globalOfAddr(st.Addr); gg == g {
-									memo[b] = sUnknown("loop writes " + g.Name())
+									// the value at the head of an iteration of a loop that writes g: an opaque term (whatever the
+									// previous iterations left), named after the loop's ordinal among the function's loops
+									memo[b] = &Sym{Op: "global", Name: fmt.Sprintf("%s@loop%d", s.p.GlobalKey(g), s.loopOrdinal(b))}
 									return memo[b]
 								}
 							}
@@ -1375,4 +1392,21 @@ var _ = strings.TrimSpace
 func isTreePkg(f *ssa.Function) bool {
 	pk, _ := namedTypeName(f.Signature.Recv().Type())
 	return strings.HasPrefix(pk, modPath+"/languages/") || strings.Contains(pk, "antlr")
+}
+
+
+// loopOrdinal: 1-based position of the loop headed by h among the function's loops, in block order.
+func (s *symFn) loopOrdinal(h *ssa.BasicBlock) int {
+	n := 1
+	for o := range s.headers {
+		if o.Index < h.Index {
+			n++
+		}
+	}
+	return n
+}
+
+
+func isNilSym(x *Sym) bool {
+	return x != nil && (x.Op == "nil" || (x.Op == "const" && x.C == nil))
 }
